@@ -609,6 +609,10 @@ def assertions(ctx, crate, crs, tag):
         ok = bool(da) and bool(dl) and bool(nx) and all(p.dominates(da[0][0], x[0]) and p.dominates(dl[0][0], x[0]) for x in nx)
         ctx.ob(R, p.key, "assertions-before-watch-loop", ok, p.loc(),
                "both assertion passes dominate the watch propagation loop")
+    # the watch propagation loop exists only inside propagate(): no second propagation routine that skips the assertion passes
+    import mech as _m
+    _m.callers_exact(ctx, "assertions", crate, DT + "next_unpropagated", {SOLVER + "propagate"}, tag, 1)
+    _m.callers_exact(ctx, "assertions", crate, "resolvo::solver::watch_map::WatchMap::cursor", {SOLVER + "propagate"}, tag, 1)
     # nobody truncates / clears the assertion list within a solve
     for b in crate.bodies:
         for i, t in b.calls():
